@@ -992,9 +992,15 @@ func (a *ownAnalyzer) call(y *ast.CallExpr, st *ownState, n int) ([]ocls, []bool
 			// evaluated in place: allowed on borrowed data by design (process1); counts as a heap modification
 			if fsel, ok := ar.(*ast.SelectorExpr); ok {
 				a.fieldWrite(fsel, st)
-			} else if c.heap {
-				// a tree reached from the heap (a stored document) is rewritten in place
-				a.recordWrite("Document.Data", -2, a.pos(ar.Pos())+" (in-place evaluation of data reachable from stored documents)")
+			} else {
+				if c.heap {
+					// a tree reached from the heap (a stored document) is rewritten in place
+					a.recordWrite("Document.Data", -2, a.pos(ar.Pos())+" (in-place evaluation of data reachable from stored documents)")
+				}
+				// a looked-up (borrowed) value that is not a field of an object the function holds: evaluating it in place
+				// rewrites the tree it was looked up in (the referenced subtree of a $merge / $replace)
+				a.ob("own-not-borrowed", callee.Name+" <- "+exprString(ar), !c.isBorrowed(), ar.Pos(),
+					exprString(ar)+" may be reachable by the caller or from stored documents, but "+callee.Name+" evaluates it in place (pass a deepClone)")
 			}
 		case "mutates":
 			bv := a.varOf(ar)
